@@ -64,6 +64,52 @@ def start_frame(ctx):
     return nf, s
 
 
+def split_assign_concat(f):
+    """split the rows by a property of the nested column, assign the same scalar field in every part, combine again
+    (the part whose rows hold no element at all must end up with the same nested dtype as the others)"""
+    lens = np.asarray(pd.Series(f["n"].array.list_lengths).fillna(0), dtype=np.int64)
+    isna = np.asarray(f["n"].isna(), dtype=bool)
+    empty = (lens == 0) & ~isna
+    parts = [f[empty].copy(), f[isna].copy(), f[~empty & ~isna].copy()]
+    for g in parts:
+        if len(g):
+            g["n.w"] = 1.0
+    parts = [g for g in parts if len(g)]
+    if not parts:
+        g = f.copy()
+        g["n.w"] = 1.0
+        return g
+    return pd.concat(parts)
+
+
+def case_reject_nesting(ctx):
+    """read_parquet(reject_nesting=…): exactly the named columns stay plain struct columns — given as a list or as one
+    string, also when another nested column's name is contained in that string"""
+    from nested_pandas import read_parquet
+    rng = ctx.rng
+    nf, s = start_frame(ctx)
+    nf = nf.rename(columns={"other": rng.choice(["n_spec", "xn", "n2"])})
+    rejected = [c for c in nf.columns if c not in ("n", "x", "k")][0]
+    form = rng.choice(["string", "list"])
+    buf = io.BytesIO()
+    nf.reset_index(drop=True).to_parquet(buf)
+    buf.seek(0)
+
+    def run():
+        back = read_parquet(buf, reject_nesting=rejected if form == "string" else [rejected])
+        out = {"cls": type(back).__name__, "nested_columns": sorted(back.nested_columns),
+               "kinds": {str(c): ("nested" if isinstance(back[c].dtype, NestedDtype) else
+                                  ("struct" if isinstance(back[c].dtype, pd.ArrowDtype) and pa.types.is_struct(back[c].dtype.pyarrow_dtype)
+                                   else "base")) for c in back.columns}}
+        # the column that stays nested keeps working
+        out["usable"] = len(back.query("n.a > -1e9")) == len(back) if "a" in back["n"].nest.fields else True
+        return out
+    exp = {"cls": "NestedFrame", "nested_columns": ["n"],
+           "kinds": {"x": "base", "k": "base", "n": "nested", rejected: "struct"}, "usable": True}
+    ctx.case("closure.reject_nesting", {"start": s.desc(), "rejected": rejected, "form": form}, call_real(run), None, {"ok": exp},
+             features=("reject_nesting", form, rejected), nontrivial=True)
+
+
 def chain_ops(rng):
     """(name, function frame -> frame, abstract operation for the closure model)"""
     row = {"op": "rowOp"}
@@ -106,6 +152,7 @@ def chain_ops(rng):
         ("concat_parquet_repacked", lambda f: (lambda g: pd.concat([g, g.dropna(on_nested="n", how="all")]))(parquet(f)), row),
         ("concat_with_pickle", lambda f: pd.concat([f, pickle.loads(pickle.dumps(f))]), row),
         ("concat_slices", lambda f: pd.concat([f.iloc[:1], f.iloc[1:]]), row),
+        ("split_assign_concat", split_assign_concat, {"op": "addField", "nest": "n", "field": "w"}),
         ("join_base", lambda f: f.join(pd.DataFrame({"j": np.arange(len(f.index.unique()), dtype=np.float64)}, index=f.index.unique())),
          {"op": "addBase", "name": "j"}),
         ("reset_index_drop", lambda f: f.reset_index(drop=True), row),
@@ -183,6 +230,8 @@ def run_chain(ctx, names=None, depth=None):
 def run_all(ctx):
     import itertools
     rng = ctx.rng
+    for _ in range(ctx.budget(12, 120)):
+        case_reject_nesting(ctx)
     names = [o[0] for o in chain_ops(rng)]
     for nm in names:
         run_chain(ctx, [nm])
